@@ -420,3 +420,37 @@ Proof.
   destruct (span (fun x => negb (is 13 x)) r3) as [e r4].
   destruct r4 as [|c r4']; [discriminate|apply (Fin (S (length e) + (length w + length ds)) (c :: r4'))].
 Qed.
+
+(* ---- stability under appending bytes (C02) ---- *)
+Definition final_c (r : status * N) : Prop :=
+  match fst r with Complete _ | Error _ => True | _ => False end.
+
+Lemma crlf_spec_stable size off r ext : final_c (crlf_spec size off r) -> crlf_spec size off (r ++ ext) = crlf_spec size off r.
+Proof. destruct r as [|d r']; [intros []|reflexivity]. Qed.
+Lemma ext_spec_stable : forall l size off ext, final_c (ext_spec size off l) -> ext_spec size off (l ++ ext) = ext_spec size off l.
+Proof.
+  induction l as [|b r IH]; intros size off ext H; [destruct H|]. cbn [ext_spec app] in *.
+  destruct (is 13 b); [apply crlf_spec_stable; exact H|apply IH; exact H].
+Qed.
+Lemma ws_spec_stable : forall l size off ext, final_c (ws_spec size off l) -> ws_spec size off (l ++ ext) = ws_spec size off l.
+Proof.
+  induction l as [|b r IH]; intros size off ext H; [destruct H|]. cbn [ws_spec app] in *.
+  destruct (is 13 b); [apply crlf_spec_stable; exact H|].
+  destruct (is 59 b); [apply ext_spec_stable; exact H|].
+  destruct (ws b); [apply IH; exact H|reflexivity].
+Qed.
+Lemma dig_spec_stable : forall l count size off ext,
+  final_c (dig_spec count size off l) -> dig_spec count size off (l ++ ext) = dig_spec count size off l.
+Proof.
+  induction l as [|b r IH]; intros count size off ext H; [destruct H|]. cbn [dig_spec app] in *.
+  destruct (hexdig b).
+  - destruct (Nat.ltb 15 count); [reflexivity|apply IH; exact H].
+  - destruct (Nat.eqb count 0); [reflexivity|].
+    destruct (is 13 b); [apply crlf_spec_stable; exact H|].
+    destruct (is 59 b); [apply ext_spec_stable; exact H|].
+    destruct (ws b); [apply ws_spec_stable; exact H|reflexivity].
+Qed.
+
+Theorem chunk_stable : forall dbg buf ext,
+  final_c (parse_chunk_size dbg buf) -> parse_chunk_size dbg (buf ++ ext) = parse_chunk_size dbg buf.
+Proof. intros dbg buf ext. rewrite !chunk_model_spec. apply dig_spec_stable. Qed.
